@@ -82,6 +82,13 @@ def _cmp_batch(ctx, site, labels, batch_fn, single_fn, cls, tol=TOL, signfree=Fa
             if not ok:
                 ctx.fail(site, f'row={labels[i]} via={how}', o, s, tol)
     plans = [('whole-batch', list(range(n))), ('reversed-batch', list(range(n - 1, -1, -1)))]
+    # short batches of every small size (2, 3, 4, 5 rows: a 3- or 4-row batch of 3- or 4-vectors / 3x3 matrices is a square block whose
+    # axes a vectorised path can mix up), taken at two places of the alphabet
+    for nn in (2, 3, 4, 5):
+        if n >= nn + 2:
+            plans.append((f'first-{nn}-rows', list(range(nn))))
+            mid = max(0, min(n - nn, n // 2))
+            plans.append((f'{nn}-rows-from-{mid}', list(range(mid, mid + nn))))
     for how, idx in plans:
         try:
             out = batch_fn(idx)
@@ -130,6 +137,24 @@ def job_twins(ctx, k):
                    lambda idx: np.asarray(O.q2R(Q[idx].copy(), ver)), lambda i: O.q2R(Q[i].copy(), ver), 'func:q2R')
     _cmp_batch(ctx, 'DCM.from_quaternion batch row = single', labels,
                lambda idx: np.asarray(DCM().from_quaternion(Q[idx].copy())), lambda i: DCM().from_quaternion(Q[i].copy()), 'func:from_quaternion')
+    # Quaternion.rotate on a 3-by-N block of column vectors: column j = rotate(column j), for every small N (N = 3 is a square block)
+    vecs = np.array([[1.0, 2.0, -3.0], [0.5, -0.25, 4.0], [-2.0, 1.5, 0.75], [3.0, 0.0, -1.0], [0.1, 0.9, -0.4], [7.0, -8.0, 9.0]]).T
+    for i in range(0, len(rows), 7):
+        Qi = Quaternion(Q[i].copy())
+        singles = [np.asarray(Qi.rotate(vecs[:, j].copy())) for j in range(vecs.shape[1])]
+        for nb in (1, 2, 3, 4, 5, 6):
+            for off in (0, 1):
+                if off + nb > vecs.shape[1]:
+                    continue
+                ctx.evals += 1
+                try:
+                    blk = np.asarray(Qi.rotate(vecs[:, off:off + nb].copy()))
+                    ok = blk.shape == (3, nb) and all(_eq(blk[:, j], singles[off + j]) for j in range(nb))
+                except Exception as ex:
+                    ok, blk = False, repr(ex)[:120]
+                if not ok:
+                    ctx.fail('Quaternion.rotate(3-by-N block): column j = rotate(column j)', f'row={labels[i]} N={nb} offset={off}', blk, [x.tolist() for x in singles[off:off + nb]], TOL)
+        ctx.cls('twin:rotate-block')
     # scalar-last storage: the array class against the scalar class (same order), row by row, and against the Hamilton-ordered answers
     sub = list(range(0, len(rows), 5))
     QS = np.roll(Q[sub], -1, axis=1)
@@ -159,7 +184,7 @@ def job_rpy(ctx):
     _cmp_batch(ctx, 'QuaternionArray(angles=) row = Quaternion(angles=)', labels,
                lambda idx: np.asarray(QuaternionArray(angles=Ang[idx].copy())), lambda i: np.asarray(Quaternion(angles=Ang[i].copy())), 'twin:from_rpy')
     _cmp_batch(ctx, 'rpy2q batch row = single', labels,
-               lambda idx: np.asarray(O.rpy2q(Ang[idx].copy())).T if np.asarray(O.rpy2q(Ang[idx].copy())).shape[0] == 4 and len(idx) != 4 else np.asarray(O.rpy2q(Ang[idx].copy())),
+               lambda idx: np.asarray(O.rpy2q(Ang[idx].copy())).T,          # rpy2q returns the quaternions as columns (4-by-N)
                lambda i: O.rpy2q(Ang[i].copy()), 'func:rpy2q')
     ctx.sample({'rpy_rows': len(trip)})
 
